@@ -262,7 +262,8 @@ func (w *world) judgeStore(id, when string, model map[string]*acct) {
 // ---- lane S -------------------------------------------------------------------
 
 // cacheCfg: "default" (TTL 120 s), "ttl1" (entries expire after 1 s and are pruned every second; the history waits
-// for expiry a few times), "disabled" (--iam-cache-disable): the documented cache settings.
+// for expiry a few times), "disabled" (--iam-cache-disable): the documented cache settings; "admin-port": the admin API
+// on a separate listener.
 func laneSeq(c *ev.Ctx, id string, r *rand.Rand, steps int, cacheCfg string) {
 	cfg := gw.Config{Chown: true}
 	switch cacheCfg {
@@ -270,6 +271,9 @@ func laneSeq(c *ev.Ctx, id string, r *rand.Rand, steps int, cacheCfg string) {
 		cfg.Env = []string{"VGW_IAM_CACHE_TTL=1", "VGW_IAM_CACHE_PRUNE=1"}
 	case "disabled":
 		cfg.Env = []string{"VGW_IAM_CACHE_DISABLE=true"}
+	case "admin-port":
+		// the admin API on a listener of its own (--admin-port); account changes go there, S3 requests to the S3 port
+		cfg.AdminPort = true
 	}
 	waits := 0
 	env, err := fx.New("c17s", cfg, 1)
@@ -821,7 +825,7 @@ func Run(c *ev.Ctx) int {
 		if !c.Want(id) {
 			continue
 		}
-		cc := []string{"default", "default", "default", "ttl1", "disabled"}[i%5]
+		cc := []string{"default", "admin-port", "default", "ttl1", "disabled"}[i%5]
 		run(func() { laneSeq(c, id, rand.New(rand.NewSource(seed)), steps, cc) })
 	}
 	for i, op := range []string{"delete", "update-secret"} {
